@@ -1,5 +1,6 @@
 import Toodee.Impl.TooDee
 import Toodee.Impl.Iter
+import Toodee.Impl.Flatten
 import Toodee.Base.Buf
 /-
   Impl-model of src/serde.rs (after the `fix:` commits: field-identifier keys, one-zero-dimension check) over an abstract
@@ -78,5 +79,12 @@ def serializeOwned {α : Type} (enc : α → JVal) (t : TD α) : JVal :=
 /-- `Serialize for TooDeeView<'_, u32>` / `TooDeeViewMut<'_, u32>` src/serde.rs: num_cols, num_rows, `cells().collect()` -/
 def serializeView {α : Type} (enc : α → JVal) (numCols numRows : Nat) (cells : List α) : JVal :=
   .obj [("num_cols", .num numCols), ("num_rows", .num numRows), ("data", .arr (cells.map enc))]
+
+/-- `Serialize for TooDeeView<'_, u32>` / `TooDeeViewMut<'_, u32>` as written (src/serde.rs:98-122): the dimensions, then
+    `self.cells().collect::<Vec<_>>()` — the `FlattenExact` cursor over `rows()`, folded -/
+def VW.serialize {α : Type} (m : Mode) (enc : α → JVal) (v : VW) (buf : List α) : Res JVal := do
+  let rows ← v.rows m
+  let ps ← (Flat.new rows).collect (rows.v.len + 3)
+  pure (serializeView enc v.numCols v.numRows (ps.filterMap fun p => buf[p]?))
 
 end Toodee
